@@ -80,6 +80,36 @@ def gen_ops(rng, n, kinds):
                 if decl:
                     a, b = rng.choice(decl), rng.choice(decl)
                     di["%s.%s" % (a[0], a[1])] = "%s.%s" % (b[0], b[1])
+            if len(clzs) >= 2 and rng.random() < 0.35:
+                # dependency injection as it is used: a handler calls a method of an interface that records no calls itself,
+                # the registered implementation's method of that name does the work
+                import copy
+                clzs = copy.deepcopy(clzs)
+                ci, cimpl = rng.sample(range(len(clzs)), 2)
+                iface, impl = clzs[ci], clzs[cimpl]
+                mname = rng.choice(MTHS[:4])
+                for c in (iface, impl):
+                    if not any(f["Name"] == mname for f in c["Functions"]):
+                        c["Functions"].append({"Name": mname, "FunctionCalls": []})
+                for f in iface["Functions"]:
+                    if f["Name"] == mname:
+                        f["FunctionCalls"] = []
+                others = [(c["Package"], c["NodeName"], f["Name"]) for c in clzs for f in c["Functions"] if c is not iface]
+                for f in impl["Functions"]:
+                    if f["Name"] == mname and not f["FunctionCalls"] and others:
+                        for _ in range(rng.choice([1, 2])):
+                            pk, cn, mn = rng.choice(others)
+                            f["FunctionCalls"].append({"Package": pk, "NodeName": cn, "FunctionName": mn})
+                di = dict(di)
+                di["%s.%s" % (iface["Package"], iface["NodeName"])] = "%s.%s" % (impl["Package"], impl["NodeName"])
+                handler_cls = rng.choice([c for c in clzs if c is not iface])
+                if not handler_cls["Functions"]:
+                    handler_cls["Functions"].append({"Name": "handle", "FunctionCalls": []})
+                hf = rng.choice(handler_cls["Functions"])
+                hf["FunctionCalls"].append({"Package": iface["Package"], "NodeName": iface["NodeName"], "FunctionName": mname})
+                apis = apis + [{"HttpMethod": "GET", "Uri": "/di", "PackageName": handler_cls["Package"], "ClassName": handler_cls["NodeName"],
+                                "MethodName": hf["Name"]}]
+                decl = [(c["Package"], c["NodeName"], f["Name"]) for c in clzs for f in c["Functions"]]
             ops.append({"op": "api", "clzs": clzs, "apis": apis, "di": di})
     return ops
 
